@@ -65,6 +65,8 @@ def run(tier, seed, only=None):
         'mappings': '2 entities (names of 1/5/9 characters), single or composite key, 0-2 relations between them (to-one required/optional, '
                     'many-to-many), self relation (symmetric, parent/children, two-sided m2m); 1 entity with two data attributes whose '
                     'names collide after truncation/case folding x unique/index/composite_key/composite_index',
+        'inheritance': 'Room (single/composite key) <- Event hierarchy: reference Required / Optional / Required(nullable=True), declared in the root or in a subclass, x 4 data attribute kinds x 4 dialects',
+        'real limits': 'unmodified provider classes: max_name_len against the documented limit; entity / attribute names of length limit-1, limit, limit+1',
         'dialects': list(D)}
     rep.assumptions = ['providers are instantiated without a connection (object.__new__ on a subclass with a lowered max_name_len); '
                        'mappings use a fake connection pool (engine.env.FakePool), create_tables/check_tables are not executed',
